@@ -547,6 +547,9 @@ def _js_type(t, openapi, refprefix):
         out = {"oneOf": [{"$ref": refprefix + r} for r in t["refs"]]}
         if openapi:
             out["discriminator"] = {"propertyName": t["disc"]}
+            if t.get("mapping"):      # explicit, possibly non-injective value -> type mapping (schema NAMES: the spelling cog reads;
+                # with "#/components/schemas/X" references the Go jenny emits code that does not parse - C02)
+                out["discriminator"]["mapping"] = {m["v"]: m["ref"] for m in t["mapping"]}
         return out
     if k == "struct":
         props, req = {}, []
@@ -941,6 +944,8 @@ def generate(ctx, batch, go_flags=None, extra_languages=(), formats=FORMATS):
             batch.units[pkg] = u
             try:
                 text = render(schema, fmt, pkg)
+                if getattr(batch, "render_hook", None):     # optional post-processing of the schema TEXT (spellings, tokens: python_common)
+                    text = batch.render_hook(sid, fmt, pkg, text)
             except NotExpressible as e:
                 u["status"] = "not_expressible"
                 u["why"] = str(e)
